@@ -1616,3 +1616,12 @@ for _p in sorted(_glob.glob(_os.path.join(_HERE, 'refactors', 'R*.diff'))):
 for _p in sorted(_glob.glob(_os.path.join(_os.path.dirname(_HERE), 'seeded', 'C[0-9][0-9]-[0-9]*', 'patch.diff'))):
     _n = _os.path.basename(_os.path.dirname(_p))
     VARIANTS.append(_PatchVariant(_n.split('-')[0], 'breaker', 'seeded-' + _n, _p))
+# the repairs made to the library, reverted one by one (selftest/regressions/<prop>-<commit>.diff = git diff <commit> <commit>~1):
+# "a fixed entry suppresses nothing" - the property must report the defect again if it ever returns.  A reversal that no longer
+# applies to the current tree is skipped; one that removes an anchor altogether may end in exit 2 (never in a silent pass).
+for _p in sorted(_glob.glob(_os.path.join(_HERE, 'regressions', 'C[0-9][0-9]-*.diff'))):
+    _n = _os.path.basename(_p)[:-5]
+    _v = _PatchVariant(_n.split('-')[0], 'breaker', 'reverted-fix-' + _n, _p)
+    _v.accept_exit2 = True
+    VARIANTS.append(_v)
+
